@@ -32,6 +32,7 @@ func TestC11(t *testing.T) {
 			}
 			constantScripts(&c.Sc)
 			c.NoRecovery = lab.Pct(t, 17, "noRecovery")
+			c.OptOrder = lab.Rng(t, 0, 5, "optOrder")
 			if lab.Pct(t, 25, "fault") {
 				c.FaultAt = lab.Rng(t, 1, 12, "faultAt")
 			}
